@@ -4,10 +4,22 @@ C05 — Transient network faults never wedge a session (the acknowledgement disc
 After the `fix:` commit every well-formed input packet that passes the shape checks is answered:
 with an InputAck carrying the receiver's newest frame, whether or not its payload could be decoded
 against an input the receiver still holds. This is the step that makes the sender's retransmission
-loop converge after any number of lost acknowledgements; the end-to-end recovery ("two clean
-rounds suffice") is decided on traces (monitor clause `no-progress`, families loss/specack).
+loop converge after any number of lost acknowledgements.
+
+`C05_stream_intact` and `C05_link_recovers` are the link-level theorems (Proofs/RecvStream*.lean,
+Proofs/Link.lean): sender endpoint and receiver endpoint joined by a network that may lose,
+duplicate, delay and reorder every message in both directions, for schedules of any length. The
+first says the input stream the receiver hands to its session is always an exact prefix of what
+the sender submitted; the second that from EVERY state such a schedule can produce, one clean
+exchange (ack, retransmission, ack) brings the receiver fully up to date and empties the sender's
+window — before the `fix:` commit the second was false (a receiver that had pruned the sender's
+reference input never answered, so the window never moved). What remains decided on traces only
+is the session level above the link (frames advance again, no Disconnected event; monitor clause
+`no-progress`, families loss/specack) and the handshake under loss (C12_handshake covers its
+safety).
 -/
 import GgrsModel.Proofs.Endpoint
+import GgrsModel.Proofs.Link
 
 namespace Ggrs.Endpoint
 open Codec (Bytes)
@@ -50,3 +62,48 @@ theorem C05_ack_pops (e : Endpoint) (ack : Frame)
   exact key e.pendingOutput e.lastAckedInput hinc
 
 end Ggrs.Endpoint
+
+namespace Ggrs
+open Codec (Bytes)
+
+/-- **C05, stream intact.** Start from any state satisfying the link invariant (two endpoints right
+after the handshake do: `LInv_init`). After ANY schedule of input submissions, retransmissions,
+deliveries of any Input message ever sent (lost = never delivered, duplicated = delivered twice,
+reordered = delivered in any order) and deliveries of any acknowledgement, the Input events the
+receiver has raised are exactly the events of the stream's frames `f0 .. newest received`, in
+order, and the invariant still holds. -/
+theorem C05_stream_intact (S : SStream) (hsize : S.width ≤ 65535) (st st' : Link) (h : LInv S st)
+    (hrun : LStar S st st') :
+    LInv S st' ∧
+    st'.b.eventQueue = evsRange S st'.b.handles S.f0 (nextFrame st'.b S - S.f0).toNat ∧
+    st'.b.lastRecvFrame ≤ (S.f0 : Int) + st'.k - 1 :=
+  have h' := L_link S hsize st st' h hrun
+  ⟨h', h'.events, h'.causal⟩
+
+/-- **C05, recovery.** From every state reachable under any fault schedule, one clean exchange
+resynchronises the link (see `L_link_recovers`). -/
+theorem C05_link_recovers (S : SStream) (hsize : S.width ≤ 65535) (st st' : Link) (h : LInv S st)
+    (hrun : LStar S st st') (now now' : Nat) (cs : List ConnStatus) (a2 : Endpoint)
+    (hs : (st'.a.popPendingOutput st'.b.lastRecvFrame).sendPendingOutput now cs = .ok a2) :
+    (a2.sendQueue = st'.a.sendQueue ∧ nextFrame st'.b S = (S.f0 : Int) + st'.k ∧ a2.pendingOutput = []) ∨
+    (∃ m cs' d start ack bytes, a2.sendQueue = st'.a.sendQueue ++ [m] ∧ m.body = .input cs' d start ack bytes ∧
+      start = nextFrame st'.b S ∧
+      (st'.b.decodeInputs now' start bytes).lastRecvFrame = (S.f0 : Int) + st'.k - 1 ∧
+      (a2.popPendingOutput (st'.b.decodeInputs now' start bytes).lastRecvFrame).pendingOutput = []) :=
+  L_link_recovers S hsize st' (L_link S hsize st st' h hrun) now now' cs a2 hs
+
+/-- The sender never holds more than `PENDING_OUTPUT_SIZE + 1` unacknowledged inputs as long as the
+session stops submitting once the window is full (it disconnects the endpoint then): C18's bound
+on unacknowledged inputs, for every schedule. -/
+theorem C05_window_bounded (S : SStream) (hsize : S.width ≤ 65535) (st st' : Link) (h : LInv S st)
+    (hrun : LStar S st st') : st'.a.pendingOutput.length ≤ PENDING_OUTPUT_SIZE + 1 := by
+  have h' := L_link S hsize st st' h hrun
+  rw [h'.sinv.pend, framesFrom_length]
+  exact h'.pendLen
+
+/-! Non-vacuity: freshly built endpoints satisfy the hypotheses (`RInv_new`, `LInv_init`), and a
+concrete two-frame exchange with a duplicated, reordered delivery. -/
+example : RInv (Endpoint.new [0] 1 2 1 8 2000 500 60 none 7 0) ⟨0, [[5], [6]], 1⟩ :=
+  RInv_new [0] 1 2 1 8 2000 500 60 none 7 0 ⟨0, [[5], [6]], 1⟩ rfl (by decide) (by decide)
+
+end Ggrs
